@@ -7,6 +7,7 @@ package main
 import (
 	"bytes"
 	"fmt"
+	"io"
 	"io/fs"
 	"log/slog"
 	"sort"
@@ -22,6 +23,7 @@ import (
 
 type sink struct {
 	refusals int
+	mode     int // what a refusal looks like: 0 EAGAIN after half the line, 1 io.ErrShortWrite after half the line, 2 half the line and no error
 	busy     bool
 	chunks   []string
 	sched    bool
@@ -38,6 +40,12 @@ func (s *sink) Write(p []byte) (int, error) {
 			vsched.Event("write-refused")
 		}
 		s.refusals++
+		switch s.mode {
+		case 1:
+			return len(p) / 2, io.ErrShortWrite
+		case 2:
+			return len(p) / 2, nil
+		}
 		return len(p) / 2, errSink
 	}
 	if s.sched {
@@ -158,6 +166,14 @@ func body(sc scen) func(c *vsched.Ctx) {
 			}
 		}
 		wide := deriveWide(root)
+		for _, ops := range sc.threads {
+			for _, k := range ops {
+				if k == 6 {
+					// a short write is not an invitation to write the rest: one Write per record whatever it returns
+					w.mode = vsched.Choose(3, "kind-of-refusal")
+				}
+			}
+		}
 		type done struct{ thread, idx, kind int }
 		plan := make([][]int, len(sc.threads))
 		var desc []string
